@@ -1,4 +1,3 @@
-CONSTANTS Part = "all" MaxMult = 3 Rich = FALSE
+CONSTANTS Part = "all" MaxMult = 3 Rich = FALSE Check = TRUE
 SPECIFICATION Spec
-INVARIANT SelfConsistent
 CHECK_DEADLOCK FALSE
